@@ -109,7 +109,7 @@ func v2Network() *consensus.Network {
 	n.HardforkFoundation.PrimaryAddress = types.AnyoneCanSpend().Address()
 	n.HardforkFoundation.FailsafeAddress = types.VoidAddress
 	n.HardforkV2.AllowHeight = 0
-	n.HardforkV2.RequireHeight = 0
+	n.HardforkV2.RequireHeight = 1
 	n.HardforkV2.FinalCutHeight = 1 << 30
 	n.HardforkV2.EphemeralOutputHeight = 0
 	return n
